@@ -111,10 +111,20 @@ contract(_Q + "_pre_run", params={"self": "DocTest", "verbose": "int"}, trusted=
 contract(_Q + "_import_module", params={"self": "DocTest"}, trusted=True, modifies=["self.module"],
          raises={"Exception*?": None},
          note="T: importlib; leaves sys.path as found (C12.syspath is the contract of import_module_from_path)")
-contract(_Q + "_test_globals", params={"self": "DocTest"}, returns="tuple[Namespace,int]", trusted=True,
+record("PyModule", __dict__="Namespace")
+contract(_Q + "_extract_future_flags", params={"namespace": "Namespace"}, returns="int", trusted=True, log=False, modifies=[],
+         note="T: reads the __future__ features bound in the namespace")
+contract(_Q + "_test_globals", params={"self": "DocTest"}, returns="tuple[Namespace,int]",
+         modifies=["obj(self.global_namespace)"],
          ensures=[("same-dict", "result[0] is self.global_namespace")],
-         opts={"result_alias": {0: "self.global_namespace"}},
-         note="assumed here: the dict handed to exec is self.global_namespace (module entries are copied into it); C11.globals")
+         props=["C11", "C01"],
+         opts={"native": False, "result_alias": {0: "self.global_namespace"},
+               "entry_types": {"DocTest.module": "Optional[PyModule]", "DocTest.exc_info": "Optional[Val]",
+                               "DocTest.failed_part": "Optional[Val]"}},
+         note="the dict handed to exec is the doctest's own global_namespace: the entries of the module under test are copied INTO "
+              "it (dict.update); the module's __dict__ object is neither returned nor written (frame), so assignments made by the "
+              "doctest cannot rebind the module's globals (C11.globals)",
+         sentinel=("runs-in-the-module-dict", "result[0] is self.module.__dict__"))
 contract(_Q + "_color", params={"self": "DocTest", "text": "str", "color": "str", "enabled": "Optional[bool]"},
          returns="str", trusted=True, log=False, note="T: presentation")
 contract(_Q + "_print_captured", params={"self": "DocTest"}, trusted=True, log=False, modifies=[], note="T: prints")
